@@ -13,6 +13,7 @@ import (
 	"github.com/oasisprotocol/curve25519-voi/curve"
 	"github.com/oasisprotocol/curve25519-voi/curve/scalar"
 	"github.com/oasisprotocol/curve25519-voi/zzverif/gen"
+	"github.com/oasisprotocol/curve25519-voi/zzverif/hist"
 	"github.com/oasisprotocol/curve25519-voi/zzverif/mon"
 	"github.com/oasisprotocol/curve25519-voi/zzverif/ref"
 )
@@ -28,6 +29,7 @@ var mask255 = new(big.Int).Sub(gen.Two255, big.NewInt(1))
 type ctx struct {
 	r *mon.Run
 	c Case
+	h *hist.Pool // scalar objects with a past: recoded before, then overwritten through some mutator (package hist)
 }
 
 func (x *ctx) fail(sig, what string, v *big.Int) {
@@ -36,10 +38,9 @@ func (x *ctx) fail(sig, what string, v *big.Int) {
 
 func (x *ctx) check(v *big.Int) {
 	r := x.r
-	s, err := scalar.NewFromBits(ref.LE32(v))
-	if err != nil {
-		mon.Fatalf("NewFromBits: %v", err)
-	}
+	// the object has held other values and has been recoded with them; the value is written through a randomly
+	// chosen mutator (SetBits, Set, ConditionalSelect, and for reduced values the decoders and arithmetic)
+	s := x.h.SVal(ref.LE32(v))
 	r.Journal("c17 value %x", v)
 	r.Eval(v.Bytes())
 	acc := new(big.Int)
@@ -135,6 +136,143 @@ func (x *ctx) check(v *big.Int) {
 		}
 	}
 	r.EvalN(11)
+}
+
+// reconstruct adds digit*2^bit for every (digit, bit) into a byte-wise signed accumulator and reports whether the
+// sum equals the 32-byte little-endian value.
+type recon struct{ acc [48]int64 }
+
+func (a *recon) add(d int64, bit uint) { a.acc[bit/8] += d << (bit % 8) }
+func (a *recon) equals(v []byte) bool {
+	carry := int64(0)
+	for i := range a.acc {
+		t := a.acc[i] + carry
+		b := t & 0xff
+		carry = (t - b) >> 8
+		want := int64(0)
+		if i < 32 {
+			want = int64(v[i])
+		}
+		if b != want {
+			return false
+		}
+	}
+	return carry == 0
+}
+
+// fastCheck applies the same rules as check (value reconstruction and digit ranges of every recoding) without big
+// integers, so that millions of structured strings can be pushed through.
+func (x *ctx) fastCheck(vb []byte) {
+	s := x.h.SVal(vb)
+	bad := func(sig string) { x.fail(sig, "fast path; re-run through the full checker with the replay", ref.FromLE(vb)) }
+	var a recon
+	bits := s.Bits()
+	for i, b := range bits {
+		if b > 1 {
+			bad("Bits/range")
+		}
+		a.add(int64(b), uint(i))
+	}
+	if !a.equals(vb) {
+		bad("Bits/value")
+	}
+	a = recon{}
+	d16 := s.ToRadix16()
+	for i, d := range d16 {
+		if d < -8 || d > 8 || (i < 63 && d == 8) {
+			bad("ToRadix16/range")
+		}
+		a.add(int64(d), uint(4*i))
+	}
+	if !a.equals(vb) {
+		bad("ToRadix16/value")
+	}
+	for w := uint(2); w <= 8; w++ {
+		n := s.NonAdjacentForm(w)
+		a = recon{}
+		last := -1000
+		for i, d := range n {
+			if d == 0 {
+				continue
+			}
+			if d%2 == 0 || int(d) >= 1<<(w-1) || int(d) <= -(1<<(w-1)) {
+				bad(fmt.Sprintf("NonAdjacentForm(%d)/range", w))
+			}
+			if i-last < int(w) {
+				bad(fmt.Sprintf("NonAdjacentForm(%d)/spacing", w))
+			}
+			last = i
+			a.add(int64(d), uint(i))
+		}
+		if !a.equals(vb) {
+			bad(fmt.Sprintf("NonAdjacentForm(%d)/value", w))
+		}
+	}
+	for w := uint(6); w <= 8; w++ {
+		d := s.ToRadix2w(w)
+		hint := int(scalar.ToRadix2wSizeHint(w))
+		half := 1 << (w - 1)
+		a = recon{}
+		for i, dv := range d {
+			switch {
+			case i >= hint:
+				if dv != 0 {
+					bad(fmt.Sprintf("ToRadix2w(%d)/beyond-size-hint", w))
+				}
+			case w == 8 && i == hint-1:
+				if dv != 0 && dv != 1 {
+					bad("ToRadix2w(8)/terminal-carry")
+				}
+			case w < 8 && i == hint-1:
+				if int(dv) < -half || int(dv) >= half+(1<<w) {
+					bad(fmt.Sprintf("ToRadix2w(%d)/range", w))
+				}
+			default:
+				if int(dv) < -half || int(dv) >= half {
+					bad(fmt.Sprintf("ToRadix2w(%d)/range", w))
+				}
+			}
+			a.add(int64(dv), uint(i)*w)
+		}
+		if !a.equals(vb) {
+			bad(fmt.Sprintf("ToRadix2w(%d)/value", w))
+		}
+	}
+	x.r.EvalN(12)
+}
+
+// alphabetString: a 255-bit value whose u-bit digits are drawn independently from the values that steer the carry
+// logic of a signed recoding - half-1 (passes a carry on), half (creates one), 0 and 2^u-1, their neighbours - with a
+// few arbitrary digits in between. Detached and interrupted carry chains of every shape appear with probability
+// 2^-8..2^-12 per string instead of 2^-32 and less for uniform strings.
+func alphabetString(rng *rand.Rand, u uint) []byte {
+	half := uint64(1) << (u - 1)
+	max := uint64(1)<<u - 1
+	v := new(big.Int)
+	for pos := uint(0); pos < 255; pos += u {
+		var d uint64
+		switch rng.IntN(12) {
+		case 0, 1, 2:
+			d = half - 1
+		case 3, 4:
+			d = half
+		case 5, 6:
+			d = 0
+		case 7:
+			d = max
+		case 8:
+			d = 1
+		case 9:
+			d = half + 1
+		case 10:
+			d = max - 1
+		default:
+			d = rng.Uint64() & max
+		}
+		v.Or(v, new(big.Int).Lsh(new(big.Int).SetUint64(d), pos))
+	}
+	v.And(v, mask255)
+	return ref.LE32(v)
 }
 
 // consume: the digits drive table lookups; wrong or out-of-range digits show as a wrong point or a panic.
@@ -282,7 +420,7 @@ func structured() []*big.Int {
 }
 
 func runCase(r *mon.Run, c Case) {
-	x := &ctx{r: r, c: c}
+	x := &ctx{r: r, c: c, h: hist.New(r.Rng(c.Stream + "/objects"))}
 	rng := r.Rng(c.Stream)
 	switch c.Kind {
 	case "value":
@@ -298,6 +436,15 @@ func runCase(r *mon.Run, c Case) {
 	case "random":
 		for i := 0; i < 2000; i++ {
 			x.check(gen.Rand255(rng))
+		}
+	case "alphabet":
+		for i := 0; i < 20000; i++ {
+			u := uint(4 + i%5)
+			x.fastCheck(alphabetString(rng, u))
+			if i%64 == 0 {
+				x.r.Eval(nil)
+				x.r.Hist(fmt.Sprintf("alphabet-strings/digit-bits=%d", u))
+			}
 		}
 	case "consume":
 		st := structured()
@@ -321,6 +468,9 @@ func main() {
 	cases := []Case{{Kind: "structured"}}
 	for i := 0; i < r.Pick(100, 4000); i++ {
 		cases = append(cases, Case{Kind: "random", Stream: fmt.Sprintf("c17/random/%d", i)})
+	}
+	for i := 0; i < r.Pick(48, 1600); i++ {
+		cases = append(cases, Case{Kind: "alphabet", Stream: fmt.Sprintf("c17/alphabet/%d", i)})
 	}
 	for i := 0; i < r.Pick(12, 200); i++ {
 		cases = append(cases, Case{Kind: "consume", Stream: fmt.Sprintf("c17/consume/%d", i)})
